@@ -10,6 +10,7 @@ OPS = ["unsafe_add({a}, {b})", "unsafe_mul({a}, {b})", "unsafe_sub({a}, {b})", "
 
 CONSTS = [0, 1, 2, 3, 7, 31, 255, 2 ** 128, 2 ** 256 - 1]
 HELPERS = "".join(f"K{i}: constant(uint256) = {v}\n" for i, v in enumerate(CONSTS)) + """st_: uint256[4]
+sb_: Bytes[64]
 
 @internal
 def _h(v: uint256[4], k: uint256) -> uint256:
@@ -20,6 +21,12 @@ def _g(v: uint256[4], k: uint256) -> uint256[4]:
     w: uint256[4] = v
     w[k % 4] = k
     return w
+
+@internal
+def _hb(v: Bytes[64], k: uint256) -> Bytes[64]:
+    if k % 2 == 0:
+        return v
+    return abi_encode(k, len(v))
 
 @internal
 def _p(v: DynArray[uint256, 6], k: uint256) -> DynArray[uint256, 6]:
@@ -58,6 +65,16 @@ def gen_cf_mem_program(rnd):
         """one non-compound statement; `iterating`: array which must not be modified (it is being iterated)"""
         arrs = [z for z in "ab" if z != iterating]
         c = rnd.random()
+        if rnd.random() < 0.22:        # bytestring locals p, q
+            u, v = rnd.sample("pq", 2)
+            k = rnd.randrange(9)
+            lines.append(ind + [f"{u} = {v}", f"{u} = ({u} if {cond(idx)} else {v})", f"{u} = abi_encode({expr(idx)}, {atom(idx)})",
+                                f"{u} = self._hb({v}, {atom(idx)})", f"s = s ^ convert(keccak256({u}), uint256)", f"s = unsafe_add(s, len({u}))",
+                                f"self.sb_ = {u}", f"{u} = self.sb_", f"{u} = ({v} if {cond(idx)} else self.sb_)"][k])
+            if rnd.random() < 0.3:
+                lines.append(f"{ind}if len({v}) >= 32:")
+                lines.append(f"{ind}    {u} = slice({v}, {atom(idx)} % 2, 31)")
+            return
         if c < 0.25 and arrs:
             lines.append(f"{ind}{rnd.choice(arrs)}[{atom(idx)} % 4] = {expr(idx)}")
         elif c < 0.4:
@@ -112,8 +129,9 @@ def gen_cf_mem_program(rnd):
 
     block("    ", 0, [])
     head = ["@external", "def f(x: uint256, y: uint256) -> uint256:", "    a: uint256[4] = [1, 2, 3, 4]", "    b: uint256[4] = [x, y, 5, 6]",
-            "    d: DynArray[uint256, 6] = [x]", "    s: uint256 = 7"]
-    tail = ["    for q: uint256 in d:", "        s = unsafe_add(unsafe_mul(s, 31), q)",
+            "    d: DynArray[uint256, 6] = [x]", "    s: uint256 = 7", "    p: Bytes[64] = abi_encode(x, y)", "    q: Bytes[64] = b\"q\""]
+    tail = ["    for dq: uint256 in d:", "        s = unsafe_add(unsafe_mul(s, 31), dq)",
             "    return s ^ a[0] ^ (a[1] << 8) ^ (a[2] << 16) ^ (a[3] << 24) ^ (b[0] << 32) ^ (b[1] << 40) ^ (b[2] << 48) ^ (b[3] << 56)"
-            " ^ (self.st_[0] << 64) ^ (self.st_[3] << 72) ^ (len(d) << 80)"]
+            " ^ (self.st_[0] << 64) ^ (self.st_[3] << 72) ^ (len(d) << 80) ^ convert(keccak256(p), uint256) ^ (convert(keccak256(q), uint256) >> 1)"
+            " ^ convert(keccak256(self.sb_), uint256)"]
     return HELPERS + "\n" + "\n".join(head + lines + tail) + "\n"
